@@ -333,6 +333,11 @@ def known_bits(t):
         r = (mask(tz), c0 & mask(tz))
     elif t.op in ("ult", "slt", "eqz", "and1"):
         r = (0, 0)
+    elif t.op == "rng" and str(t.aux[0]).endswith(".discr"):
+        # discriminants only: loop variables with an interval keep (0, 0) so that a counter in [0, 1] is not taken for a flag
+        r = (mask(w) & ~mask(t.aux[1][1].bit_length()), 0)
+    elif t.op in ("res", "uabs") and t._rng is not None:
+        r = (mask(w) & ~mask(t._rng[1].bit_length()), 0)
     elif t.op == "ite":
         ka, va = known_bits(t.args[1])
         kb, vb = known_bits(t.args[2])
@@ -697,6 +702,18 @@ def _eqz(d):
         rows = {}
         atoms = sorted(e.keys(), key=lambda a: a.id)
         colsd = {a: cols(e[a], w, a.w) for a in atoms}
+        for a in atoms:
+            if a.op in ("rng", "res", "uabs", "lz") and a.w > 1:
+                # bits above the largest possible value of a ranged atom are zero: they take no part in the test
+                k_, v_ = known_bits(a)
+                if k_:
+                    cs_ = list(colsd[a])
+                    for j in range(a.w):
+                        if (k_ >> j) & 1 and cs_[j]:
+                            if (v_ >> j) & 1:
+                                c ^= cs_[j]
+                            cs_[j] = 0
+                    colsd[a] = cs_
         for i in range(w):
             key = []
             for a in atoms:
